@@ -102,6 +102,21 @@ claim(
     "DESIGN.md §3 C20",
 )
 
+claim(
+    "C18",
+    "Hypothesis property-based testing with an exact rational oracle (fractions.Fraction Bernstein evaluation and polynomial differentiation on dyadic inputs); boundary conditions of both solvers checked on the returned control points",
+    "Exploration: degrees 1..8, dimensions 1..3, every derivative order, t inside and outside [0, T]; the cubic and septic boundary-value solvers are checked against every requested end condition (not against their own constraint rows); trajectory and multirotor outputs are compared with exact successive derivatives.",
+    "Inputs are dyadic rationals so the oracle is exact; solver outputs are taken as exact doubles.",
+    "DESIGN.md §3 C18",
+)
+claim(
+    "C19",
+    "Grammar-based generation of expression trees (Hypothesis recursive strategies) + differential evaluation: SymPy evalf (30 digits) vs CasADi Function, both directions; typed numeric/boolean sub-trees; stateful symbol-table histories with cse",
+    "Exploration over programs: random trees over the supported grammar of each converter (plus unsupported constructs that must raise or convert faithfully) evaluated at generated points incl. equal operands, negative operands, exact zeros and rounding ties; sequences of conversions sharing one symbol table check name <-> variable consistency.",
+    "Trusts SymPy's numeric evaluation. Points outside a sub-expression's domain (non-finite intermediate, atan2(0,0)) or ill-conditioned are discarded and counted. Any exception on an unsupported construct counts as 'raises'.",
+    "DESIGN.md §3 C19",
+)
+
 NOT_YET = "check not built yet in this round (work in progress; see DESIGN.md)"
 
 
